@@ -776,7 +776,8 @@ impl World {
     pub fn client_send(&mut self, i: usize, len: usize, chan: usize, mode: u8) -> Option<u64> {
         uv::time::set_virtual_ns(Some(self.now_ns));
         let uid = self.next_uid();
-        let data = payload::make(uid, len.max(12));
+        // len 0: a zero-length packet (all of them look alike: judged by count); otherwise >= 12 bytes carry a uid
+        let data = payload::make(uid, if len == 0 { 0 } else { len.max(12) });
         let h = hash_bytes(7, &data);
         let l = data.len();
         let cl = self.clients[i].client.as_mut()?;
@@ -790,7 +791,8 @@ impl World {
     pub fn server_send(&mut self, addr: SocketAddr, len: usize, chan: usize, mode: u8) -> Option<u64> {
         uv::time::set_virtual_ns(Some(self.now_ns));
         let uid = self.next_uid();
-        let data = payload::make(uid, len.max(12));
+        // len 0: a zero-length packet (all of them look alike: judged by count); otherwise >= 12 bytes carry a uid
+        let data = payload::make(uid, if len == 0 { 0 } else { len.max(12) });
         let h = hash_bytes(7, &data);
         let l = data.len();
         let srv = self.server.server.as_ref()?;
